@@ -18,7 +18,7 @@ import supp.server as S
 PROPERTY = 'C09'
 LEVEL = 'exploration'
 BUDGET_S = {'quick': 110, 'thorough': 1700}
-UNIT_TIMEOUT_S = 600
+UNIT_TIMEOUT_S = 1200
 
 RULE = ('One evaluation = one history over a generated project (3-6 modules, 1-2 packages, import / from-import / '
         'star-import / relative / re-export edges, chains up to length 4) on a scratch disk: operations create-module, '
@@ -101,9 +101,11 @@ def gen_edit(r, spec, state, allow_backward=True):
         if '.' not in nm and nm not in dirs and r.random() < 0.35:
             # the directory of a future package appears first, with a module in it but without __init__.py
             dirs.append(nm)
-            return {'op': 'create_file', 'module': nm, 'rel': nm + '/zqin.py', 'text': 'zqin_%s = 1\n' % nm, 'dt_ms': dt}, spec
+            return {'op': 'create_file', 'module': nm, 'rel': nm + '/zqin.py', 'text': 'zqin_%s = 1\n' % nm, 'dt_ms': dt,
+                    # a second module of the future package, importing the first one relatively
+                    'more': [[nm + '/zqrel.py', 'from .zqin import *\nzqrel_%s = zqin_%s\n' % (nm, nm)]]}, spec
         mod = late_module(nm, 1, init=r.random() < (0.85 if nm in dirs else 0.4))
-        return {'op': 'create', 'newmod': mod, 'dt_ms': dt}, {'modules': mods + [mod]}
+        return {'op': 'create', 'newmod': mod, 'dt_ms': dt, 'same_tick': r.random() < 0.3}, {'modules': mods + [mod]}
     if x < 0.18 and state['created'] < 2:
         state['created'] += 1
         k = state['created']
@@ -179,10 +181,19 @@ def gen_case(seed, i, mode='main'):
                 # the usual way a package comes into being while the editor is open: directory and first module,
                 # a look at it, then the __init__.py, another look
                 nm = op['module']
-                inside = r.random() < 0.5
+                inside = r.choice((0, 1, 2))
                 for step in range(2):
                     q = G.gen_request(r, cur, uid='q%d' % nreq, origin=nm)
-                    if inside:
+                    if inside == 2:
+                        # a module of the directory that imports its neighbour relatively is reached by its full name
+                        # from outside (fails as "not a package" until the __init__.py exists)
+                        kind = q['kind']
+                        q = {'kind': kind, 'file': 'zqmain.py',
+                             'source': {'assist': 'import %s.zqrel\n%s.zqrel.\n' % (nm, nm),
+                                        'location': 'from %s.zqrel import zqin_%s\nzr = zqin_%s\n' % (nm, nm, nm),
+                                        'lint': 'from %s.zqrel import *\nprint(zqin_%s, zqrel_%s)\n' % (nm, nm, nm)}[kind],
+                             'position': {'assist': [2, len(nm) + 7], 'location': [2, 6 + len('zqin_' + nm)], 'lint': None}[kind]}
+                    elif inside:
                         # the buffer being edited lives in that directory and imports its neighbour relatively
                         # ("not a package" until the __init__.py exists)
                         q = {'kind': q['kind'], 'file': nm + '/zqmain_rel.py', 'position': [2, 5] if q['kind'] != 'lint' else None,
@@ -404,7 +415,7 @@ class History(object):
     def fault(self, k, n=1):
         self.faults[k] = self.faults.get(k, 0) + n
 
-    def write(self, mod, dt_ms, reuse=None):
+    def write(self, mod, dt_ms, reuse=None, same_tick=False):
         path = os.path.join(self.root, G.relpath(mod))
         stamp = self.clock.stamp(path, dt_ms, reuse)
         if reuse is not None and self.clock.reused:
@@ -420,14 +431,19 @@ class History(object):
         new = not os.path.exists(path)
         G.write_module(self.root, mod, stamp)
         if new:
-            self.touch_dirs(path, stamp)
+            self.touch_dirs(path, stamp, same_tick)
 
-    def touch_dirs(self, path, stamp):
+    def touch_dirs(self, path, stamp, same_tick=False):
         """A new directory entry changes the modification time of the directory: that time, too, comes from the
-        simulated clock (directories created on the way get the same stamp)."""
+        simulated clock (directories created on the way get the same stamp).  same_tick: the entry is made within
+        the time stamp granularity of the last change of the directory, whose time therefore stays what it was."""
         d = os.path.dirname(path)
         while len(d) >= len(self.root):
             was_new = d not in self.dir_stamps
+            if same_tick and not was_new:
+                os.utime(d, ns=(self.dir_stamps[d], self.dir_stamps[d]))
+                self.fault('created_within_directory_time_tick')
+                break
             self.dir_stamps[d] = stamp
             os.utime(d, ns=(stamp, stamp))
             if not was_new:
@@ -464,11 +480,16 @@ class History(object):
                 f.write(op['text'])
             os.utime(path, ns=(stamp, stamp))
             self.touch_dirs(path, stamp)
+            for rel, text in op.get('more') or []:
+                path = os.path.join(self.root, rel)
+                with open(path, 'w') as f:
+                    f.write(text)
+                os.utime(path, ns=(stamp, stamp))
             self.probes['package_directory_before_init'] += 1
         elif k == 'create':
             for mod in op.get('newmods') or [op['newmod']]:
                 self.current[mod['name']] = mod
-                self.write(mod, op['dt_ms'])
+                self.write(mod, op['dt_ms'], same_tick=bool(op.get('same_tick')))
                 if G.short(mod['name']).startswith(('zqlate_', 'zqlsub_', 'zqattr_')):
                     self.probes['create_after_failed_import'] += 1
         name = op.get('module') or (op.get('newmod') or op['newmods'][-1])['name']
